@@ -12,8 +12,11 @@ warnings.filterwarnings("ignore")
 
 VERIF = os.path.dirname(os.path.dirname(os.path.abspath(__file__)))
 REPO = os.environ.get("DAGRT_REPO", "/repo")
-EVIDENCE_DIR = os.path.join(VERIF, "evidence")
-REPLAY_DIR = os.path.join(VERIF, "replays")
+# runs against a scratch copy (mutants, seeded changes) must not touch the committed evidence
+_SCRATCH = os.path.realpath(REPO) != "/repo"
+EVIDENCE_DIR = os.environ.get("VERIF_EVIDENCE_DIR") or (
+    "/tmp/verif_scratch_evidence" if _SCRATCH else os.path.join(VERIF, "evidence"))
+REPLAY_DIR = "/tmp/verif_scratch_replays" if _SCRATCH else os.path.join(VERIF, "replays")
 FINDINGS_FILE = os.path.join(VERIF, "known_findings.json")
 NCPU = os.cpu_count() or 4
 
